@@ -874,4 +874,27 @@ theorem gap_no_spurious_nack (st : GapSt) (ssrc : UInt32) (seq : UInt16) (lost :
         · rw [if_neg h4] at h
           split at h <;> cases h
 
+/-- **gap_pending_bounded**: the set of requested-but-not-yet-recovered sequence numbers never exceeds
+`2 · MAX_RECEIVER_NACK_GAP` = 256 entries, whatever arrives (when a step would exceed it the set is cut back to
+128 entries — WHICH entries survive is the `HashSet`'s choice and not claimed). -/
+theorem gap_pending_bounded (st : GapSt) (ssrc : UInt32) (seq : UInt16) (h : st.pending.length ≤ 256) :
+    (st.step ssrc seq).1.pending.length ≤ 256 := by
+  have hG := c15MaxReceiverNackGap_eq
+  have hF := c15PendingFactor_eq
+  unfold GapSt.step
+  split
+  · simp
+  · split
+    · exact h
+    · split
+      · exact Nat.le_trans (List.length_filter_le _ _) h
+      · simp only
+        split
+        · split
+          · simp only [List.length_drop]; rw [hG]; omega
+          · next hle =>
+            have h256 : c15MaxReceiverNackGap * c15PendingFactor = 256 := by rw [hG, hF]
+            rw [h256] at hle; simp only; omega
+        · split <;> exact h
+
 end RtcModel.Theorems.C15
